@@ -7,6 +7,7 @@ import (
 	"strings"
 
 	"cachelint/internal/core"
+	"cachelint/internal/sym"
 
 	"golang.org/x/tools/go/ssa"
 )
@@ -333,82 +334,42 @@ func blockReach(from *ssa.BasicBlock) map[*ssa.BasicBlock]bool {
 	return seen
 }
 
-// c16R4: cache read path falls back to a locking map operation only for an expired entry.
+// c16R4: cache read path falls back to a locking map operation only for an expired entry (role evaluation):
+// on every abstract path of Get / GetWithExpiration / GetWithTTL an operation of the underlying map other than the
+// lock-free Load appears only after a Load of the same call observed an entry that tested expired.
 func c16R4(r *Run, rep *core.Report) {
 	guarded := 0
 	for i := 0; i < 2; i++ {
 		for _, name := range []string{"Get", "GetWithExpiration", "GetWithTTL"} {
-			f := r.M.CacheM[i][name]
-			if f == nil {
+			mp := methodPaths(r, i, name)
+			if undecidedPaths(r, rep, "C16.R0", mp) {
 				continue
 			}
-			rep.Fn(fn(f))
-			seen := map[*ssa.Function]bool{}
-			var visit func(g *ssa.Function)
-			visit = func(g *ssa.Function) {
-				if seen[g] {
-					return
-				}
-				seen[g] = true
-				core.Instrs(g, func(in ssa.Instruction) {
-					c, ok := in.(ssa.CallInstruction)
-					if !ok {
-						return
+			rep.Fn(fn(mp.Fn))
+			bad := ""
+			for pi := range mp.Paths {
+				p := &mp.Paths[pi]
+				sawExpired := false
+				for _, ev := range p.Events {
+					if ev.Kind != "mapop" {
+						continue
 					}
-					var cal *ssa.Function
-					what := ""
-					if n, mm, ok := r.M.ItemsInvoke(c); ok {
-						cal = mm.Methods[n]
-						what = mm.Name + "." + n
-					} else if cal = core.Callee(c); cal != nil {
-						if cal.Pkg == r.P.Cache {
-							if _, lib := r.E.Of[cal]; lib {
-								visit(cal)
-							}
-							return
+					if ev.Name == "Load" || ev.Name == "Size" {
+						if ev.Loaded == 1 && itemStatus(p.PC, sym.Leaf("mapold", fmt.Sprint(ev.N))).Status == "expired" {
+							sawExpired = true
 						}
-						what = fn(cal)
+						continue
 					}
-					if cal == nil {
-						return
-					}
-					blocking := ""
-					for e := range core.Blocking {
-						if w, has := r.E.Has(cal, e); has {
-							blocking = e + " via " + w
-						}
-					}
-					if blocking == "" {
-						return
-					}
-					// must be on the expired side of an expiry test on the loaded item
-					ok = false
-					for _, b := range g.Blocks {
-						iff, isIf := b.Instrs[len(b.Instrs)-1].(*ssa.If)
-						if !isIf {
-							continue
-						}
-						_, neg, isT := expiryTest(r, iff.Cond)
-						if !isT {
-							continue
-						}
-						exp, live := b.Succs[0], b.Succs[1]
-						if neg {
-							exp, live = live, exp
-						}
-						if exp.Dominates(in.Block()) && !blockReach(live)[in.Block()] {
-							ok = true
-						}
-					}
-					if ok {
+					if sawExpired {
 						guarded++
+						continue
 					}
-					rep.Check(ok, "C16.R4", fmt.Sprintf("%s: %s reaches %s", fn(f), fn(g), what), r.P.InstrPos(in),
-						"locking map operation taken only when the loaded item tested expired",
-						"a cache read reaches a locking map operation ("+blocking+") on a path that is not confined to the expired outcome of an expiry test: reads of live or absent keys would wait for writers")
-				})
+					if bad == "" {
+						bad = fmt.Sprintf("the locking map operation %s at %s is reached on a path where no lock-free Load observed an expired entry (path: %s): a lookup of an absent or live key would wait for writers holding that bucket", ev.Name, ev.Pos, sym.DescribePC(p.PC))
+					}
+				}
 			}
-			visit(f)
+			rep.Check(bad == "", "C16.R4", fn(mp.Fn)+" locks only for an expired entry", r.P.Pos(mp.Fn.Pos()), "locking map operations are confined to paths on which the lock-free Load found an expired entry", bad)
 		}
 	}
 	rep.MinCount("C16.R4", "guarded fall-backs to a locking operation", guarded, 6)
